@@ -107,6 +107,7 @@ async def _run_case(case):
 
     msgs, k = case["msgs"], case["k"]
     ids = case.get("ids") or []
+    hstat = {}                      # handlers of server-initiated requests: j -> started/cancelled/finished
     answers = {}
     n = 0
     for m in msgs:
@@ -121,9 +122,22 @@ async def _run_case(case):
             answers[str(n)] = ["result", _payload(case, m[1])] if m[1] >= 0 else ["error", m[1]]
         elif m[0] == "B":                      # a reply that names the request but cannot be accepted
             answers[str(n)] = ["bad", m[1]]
-    script = {"k": k, "exit": case["exit"], "answers": answers,
+    script = {"k": k, "exit": case["exit"], "answers": answers, "srvreq": case.get("srvreq", 0),
               "pre": [PRE[p] for p in case.get("pre", [])], "tail": TAILS[case.get("tail", "none")]}
     client = Client(*args)
+
+    @client.feature("c17/slow")
+    async def slow_handler(params):
+        # a coroutine handler that is still waiting when the server dies
+        j = params["j"] if isinstance(params, dict) else getattr(params, "j", len(hstat))
+        hstat[j] = "running"
+        try:
+            await asyncio.sleep(30)
+            hstat[j] = "finished"
+        except asyncio.CancelledError:
+            hstat[j] = "cancelled"
+            raise
+
     obs = {"notes": []}
     t0 = time.monotonic()
     try:
@@ -186,6 +200,7 @@ async def _run_case(case):
         while pending() and time.monotonic() - t1 < 0.5 and obs["stop"] == ["returned"]:
             await asyncio.sleep(0.005)         # a task that is merely finishing is not a hang
         obs["tasks"] = ["pending" for t in pending()]
+        obs["handlers_running"] = sum(1 for v in hstat.values() if v == "running")
         obs["rc"] = obs["hook_after_stop"][0][0] if obs["hook_after_stop"] else None
         obs["t_total"] = round(time.monotonic() - t0, 3)
     finally:
@@ -335,13 +350,15 @@ def valid(c):
         return False                  # caller-chosen ids must be distinct (7 and "7" are)
     return (dead and c["exit"] in EXIT_RC and c.get("tail", "none") in TAILS
             and c.get("hook", "ok") in HOOKS and c.get("client", "plain") in ("plain", "lsp")
-            and c.get("api", "async") in ("async", "sync"))
+            and c.get("api", "async") in ("async", "sync") and c.get("srvreq", 0) in (0, 1, 2))
 
 
 def events(c):
     """The conversation as model events (everything the caller and the server do before the
     caller yields to wait for the exit to be noticed)."""
     evs = []
+    for j in range(c.get("srvreq", 0)):
+        evs.append([2, 4, j])
     for p in c.get("pre", []):
         evs.append([2, 1] if p == "bad" else [2, 2])
     rc, tc = EXIT_RC[c["exit"]], TAIL_CLASS[c.get("tail", "none")]
@@ -408,6 +425,7 @@ def canon_impl(o, nf):
         "futs": [canon_fut(f) for f in (o["futs_after_stop"] if early else o["futs"])],
         "hook": o["hook_after_stop"] if early else o["hook"], "stopped": o["stopped"],
         "t": [o.get("t_stopped"), o.get("t_total")],
+        "hrun": o.get("handlers_running", 0),
         "stop": o["stop"] if o["stop"][0] != "raised" else ["raised", o["stop"][1]],
         "errs": o["errs"],
         "futs2": [canon_fut(f) for f in o["futs_after_stop"]],
@@ -439,7 +457,10 @@ class _Toks:
         stopped = bool(self.int())
         st, ex = self.int(), self.int()
         stop = ["returned"] if st == 0 else ["raised", EXN[ex]] if st == 1 else ["timeout"]
-        return {"futs": futs, "hook": hooks, "stopped": stopped, "stop": stop, "errs": self.int()}
+        errs = self.int()
+        hts = self.list(lambda: (self.int(), self.int()))
+        return {"futs": futs, "hook": hooks, "stopped": stopped, "stop": stop, "errs": errs,
+                "hrun": sum(1 for _, h in hts if h in (0, 1)), "htasks": [h for _, h in hts]}
     def expect(self):
         k = self.int()
         f = self.fstate()
@@ -467,14 +488,17 @@ class C17(core.Property):
                    "fail_all_pending", "fail_all_all_done", "server_exit_enter", "hook_resumes",
                    "exit_task_fires", "reader_ends", "client_exit",
                    "exit_fails_all_outstanding", "hook_once", "stopped_set", "stop_returns", "spec_ok_iff",
-                   "reference_agrees", "conv_expect_sound_bounded", "C17", "C17_nonvacuous",
+                   "reference_agrees", "conv_expect_sound_bounded", "conv_expect_sound_bounded_handlers",
+                   "fail_loop_fixed", "fail_loop_le", "C17", "C17_nonvacuous", "C17_pinned_refuted_handler_task",
+                   "C17_handler_task_cancelled",
                    "C17_late_send_stays_pending", "C17_pinned_refuted_eof", "C17_pinned_refuted_errhook",
                    "C17_reference_agrees"]
     coq_targets = ["Props/C17.vo", "Extract/ExtractC17.vo"]
     rule = ("a case is one scripted server process (exit after the k-th received message with status 0 / 1 / "
             "SIGKILL, optional partial header / partial body / junk tail, optional complete bad frames) driven "
             "by the real JsonRPCClient.start_io (plain or typed BaseLanguageClient) with a conversation of answered, "
-            "unanswered, late-answered, undecodably answered and cancelled requests (uuid or caller-chosen int / str "
+            "unanswered, late-answered, undecodably answered and cancelled requests, 0-2 coroutine handlers of server "
+            "requests still running at the exit (uuid or caller-chosen int / str "
             "ids) and notifications, server_exit hook returning / raising / sleeping / awaiting the requests; non-trivial = at least one request outstanding at the exit "
             "or a partial frame written")
     trusted_base = ["Coq 8.16.1 kernel incl. vm_compute (refutation witnesses, Examples)",
@@ -533,6 +557,8 @@ class C17(core.Property):
             c["ids"] = [pool[i] if i < len(pool) and rng.random() < 0.7 else None for i in range(nf)]
         if "hook" not in c:
             c["hook"] = rng.choice(["ok", "ok", "raise", "slow", "await", "await"])
+        if rng.random() < 0.3:
+            c["srvreq"] = rng.randint(1, 2)     # coroutine handlers of server requests still running at the exit
         if rng.random() < 0.5:
             c["api"] = "sync"
         if rng.random() < 0.3:
@@ -655,14 +681,14 @@ class C17(core.Property):
 
     # ---------------- model ----------------
     def cfg(self, c):
-        return "1 1 %d %d" % (HOOKS[c.get("hook", "ok")], c.get("errhook") == "raise")
+        return "1 1 1 %d %d" % (HOOKS[c.get("hook", "ok")], c.get("errhook") == "raise")
 
     def model_input(self, c):
         evs = events(c)
         if c.get("early_stop"):
             evs.append([6])
         flat = " ".join(" ".join(map(str, e)) for e in evs)
-        return f"conv {self.cfg(c)} {len(evs)} {flat} {c.get('post', 0)}"
+        return f"conv {self.cfg(c)} {len(evs)} {flat} {c.get('post', 0)} {c.get('srvreq', 0)}"
 
     def model_output(self, c, toks):
         t = _Toks(toks)
@@ -678,7 +704,8 @@ class C17(core.Property):
                     o["hook"] = [[rc, None] for rc, _ in o["hook"]]
             M[order] = {"futs": o1["futs"], "hook": o1["hook"], "stopped": o1["stopped"], "stop": o2["stop"],
                         "errs": o2["errs"], "futs2": o2["futs"][:nf], "hook2": o2["hook"],
-                        "post": o2["futs"][nf:], "clean": True, "_spec_ok": ok}
+                        "post": o2["futs"][nf:], "clean": True, "hrun": o2["hrun"], "_spec_ok": ok,
+                        "_htasks": o2["htasks"]}
         return {"M": M, "S": {"exp": exps, "hooks": 1, "stopped": True, "stop": ["returned"]},
                 "guard": guard, "klass": None}
 
@@ -745,7 +772,7 @@ class C17(core.Property):
                 yield d
         # (the hook kind is never shrunk away: a deadlock in an awaiting hook would degrade to a
         # mere difference in what a trivial hook sees)
-        for key in ("pre", "post", "errhook", "early_stop", "client", "api"):
+        for key in ("pre", "post", "errhook", "early_stop", "client", "api", "srvreq"):
             if c.get(key):
                 d = dict(c); d.pop(key)
                 if valid(d):
@@ -789,11 +816,11 @@ class C17(core.Property):
         viol = []
         # driver / extraction sanity: the event list of Example C17_nonvacuous (kernel-checked in
         # Props/C17.v) through the binary must give the values stated there
-        line = ("run 1 1 3 1 19 0 2 0 0 0 7 4 0 1 1 0 2 3 2 4 0 2 1 2 0 3 1 -32000 0 3 -9 2 0 6 5 0 4 5")
+        line = ("run 1 1 1 3 1 19 0 2 0 0 0 7 4 0 1 1 0 2 3 2 4 0 2 1 2 0 3 1 -32000 0 3 -9 2 0 6 5 0 4 5")
         t = _Toks(core.run_driver("C17", [line])[0])
         o = t.obs()
         want = {"futs": [[1, 7], [4, 0], [3, 0], [3, 0], [3, 0], [3, 0], [0, 0]], "hook": [[-9, True]],
-                "stopped": True, "stop": ["returned"], "errs": o["errs"]}
+                "stopped": True, "stop": ["returned"], "errs": o["errs"], "hrun": 0, "htasks": []}
         if o != want:
             viol.append({"case": {"sanity": line}, "impl": o, "S": want, "verdict": "violation",
                          "suffix": "no-failing-input-found"})
@@ -845,6 +872,7 @@ class C17(core.Property):
                         "hook:" + c.get("hook", "ok"), "errhook:" + c.get("errhook", "ok"),
                         "pre:%d" % len(c.get("pre", [])), "post:%d" % c.get("post", 0),
                         "api:" + c.get("api", "async"), "client:" + c.get("client", "plain"),
+                        "srvreq:%d" % c.get("srvreq", 0),
                         "ids:" + ("chosen" if any(i is not None for i in c.get("ids") or []) else "uuid"),
                         "early_stop:%d" % bool(c.get("early_stop"))):
                 d[key] = d.get(key, 0) + 1
